@@ -5,7 +5,9 @@
 cd /verif
 J="${SEED_JOBS:-3}"
 list() {
-  for d in seeded/*/; do s=$(basename "$d"); p=${s%%-*}; echo "$p $d/patch.diff $s"; done
+  # the check that is run is the first one meta.json lists as catching the seed (normally the seed's own
+  # property; C10-agent4 breaks the CLI's wrap, which is C19's subject)
+  for d in seeded/*/; do s=$(basename "$d"); p=$(python3 -c "import json,sys; print(list(json.load(open(sys.argv[1]))['checks_run']['caught_by'])[0])" "$d/meta.json" 2>/dev/null || echo "${s%%-*}"); echo "$p $d/patch.diff $s"; done
   for f in demos/*.diff; do s=$(basename "$f" .diff); p=${s%%-*}; echo "$p $f demo:$s"; done
 }
 list | { if [ $# -gt 0 ]; then grep -E "^($(echo "$@" | tr ' ' '|')) "; else cat; fi; } | \
